@@ -210,7 +210,7 @@ func (p *Program) globalInitFacts(st *State) []*Term {
 					continue
 				}
 				if call, isCall := s.Val.(*ssa.Call); isCall {
-					if callee := call.Call.StaticCallee(); callee != nil && (p.shortName(callee) == "errors.New" || p.shortName(callee) == "fmt.Errorf") {
+					if callee := call.Call.StaticCallee(); callee != nil && (p.shortName(callee) == "errors.New" || p.shortName(callee) == "fmt.Errorf" || p.shortName(callee) == "regexp.MustCompile") {
 						// package-level sentinel errors are non-nil
 						et := g.Type().(*types.Pointer).Elem()
 						facts = append(facts, Not(isZero(st.load(vcx.globalRef(g), et), et)))
@@ -230,4 +230,23 @@ func (p *Program) globalInitFacts(st *State) []*Term {
 		}
 	}
 	return facts
+}
+
+// namedType resolves "pkg.Type" (package by name) to its named type
+func (p *Program) namedType(name string) types.Type {
+	i := strings.LastIndex(name, ".")
+	if i < 0 {
+		return nil
+	}
+	for _, pk := range p.prog.AllPackages() {
+		if pk.Pkg.Name() != name[:i] {
+			continue
+		}
+		if o := pk.Pkg.Scope().Lookup(name[i+1:]); o != nil {
+			if tn, ok := o.(*types.TypeName); ok {
+				return tn.Type()
+			}
+		}
+	}
+	return nil
 }
